@@ -104,6 +104,11 @@ func getPluginRequestTimeout() time.Duration {
 func (r *Adaptation) newLaunchedPlugin(dir, idx, base, cfg string) (p *plugin, retErr error) {
 	name := idx + "-" + base
 	fullPath := filepath.Join(dir, name)
+	if !filepath.IsAbs(fullPath) && filepath.Dir(fullPath) == "." {
+		// a plugin in the current directory: without a directory part the
+		// name would be looked up in $PATH
+		fullPath = "." + string(filepath.Separator) + fullPath
+	}
 
 	if isWasm(fullPath) {
 		log.Infof(noCtx, "Found WASM plugin: %s", fullPath)
